@@ -102,7 +102,8 @@ fn main() {
                     c07::corr_card(&mut ctx);
                     ssk::corr_sets(&mut ctx)
                 }
-                "C09" | "C08" | "DENS" => dens::corr(&mut ctx),
+                "C09" | "DENS" => dens::corr(&mut ctx),
+                "C08" => { dens::corr(&mut ctx); dens::selection_oracles(&mut ctx); }
                 "C11" | "C10" | "ORD" => ord::corr(&mut ctx),
                 "SSK" => {
                     ssk::corr_sets(&mut ctx);
